@@ -53,6 +53,25 @@ func runC12(c *Ctx, r *Report) {
 					okRef := domByCmpConst(fn, b, "*d.timestamp", token.EQL, 0, false) || domByCmpConst(fn, b, "*d.timestamp", token.NEQ, 0, true)
 					r.check(okComp, "C12-R2-who-rebases", key, pos, "in the compressed-header branch", "decoder.timestamp is stored in parseDataMessage outside the compressed-header branch")
 					r.check(okRef, "C12-R3-guards", key+"/has-reference", pos, "only when a reference time exists (timestamp != 0)", "the compressed update runs without a reference time (not guarded by timestamp != 0)")
+					// the fields of a compressed record are parsed with the advanced reference: every call that parses
+					// the record's fields is behind the update, or on a path where no update happens
+					lateField := ""
+					nParse := 0
+					for _, ci := range allCalls(fn) {
+						f := ci.Common().StaticCallee()
+						if f == nil || f.Name() != "parseDataFields" {
+							continue
+						}
+						nParse++
+						pb := ci.Block()
+						behind := b == pb || b.Dominates(pb)
+						notCompressed := domByBoolEdge(fn, pb, false, func(v ssa.Value) bool { p, ok := v.(*ssa.Parameter); return ok && p.Name() == "compressed" })
+						noRef := domByCmpConst(fn, pb, "*d.timestamp", token.EQL, 0, true) || domByCmpConst(fn, pb, "*d.timestamp", token.NEQ, 0, false)
+						if !behind && !notCompressed && !noRef {
+							lateField = c.pos(ci.Pos())
+						}
+					}
+					r.check(lateField == "" && nParse > 0, "C12-R3-guards", key+"/fields-after-update", pos, "every parseDataFields call is behind the compressed update or on a path without one", "the record's fields are parsed at "+lateField+" before the compressed header has advanced the reference: an explicit timestamp field of that record is then overwritten by the header's value, and a local timestamp in it is resolved against the stale reference")
 					// formula
 					got := pathOf(st.Val)
 					want := []string{
